@@ -54,6 +54,19 @@ CHECKS = {
              "characterised by the completion order of its futures, which the harness forces from outside with Events (the executor itself is "
              "not modelled). Closed under the global context.",
         technique="Coq proof (induction over stage lists / histories, permutation-independence lemma over association lists) + forced-schedule correspondence by vm_compute"),
+    "C12": dict(
+        text="Coq theorems over exact rationals, for every length, probability and draw vector: the BSC output on {0,1} (resp. on {-1,+1} "
+             "containing a -1) is, position by position, the input flipped iff that position's own draw is below p, so outputs stay in the "
+             "alphabet; the erasure channel returns the erasure symbol iff the position's draw is below p and the unchanged symbol otherwise; "
+             "the Z channel never turns a 0 into a 1 and a 1 only stays or falls; the event {u<p} is empty for p=0, certain for p=1 on [0,1) "
+             "and monotone in p; Z extremes. Model evaluated in Coq on the very draws the implementation consumed (reproduced by seeding), "
+             "exact comparison over channel x p x alphabet x dtype x shape.",
+        design="6/C12",
+        note="Trusted: Coq kernel + vm_compute; hand-written model Chan/Digital.v tied by exact correspondence on reproduced draws; A-rng (draws "
+             "are i.i.d. uniform) is assumed and validated statistically in the thorough tier only; 'input not modified' observed by the harness. "
+             "Closed under the global context.",
+        technique="Coq proof (pointwise laws over Q by case analysis and list induction) + exact model/implementation correspondence on reproduced RNG draws by vm_compute",
+        category="proof"),
 }
 NOT_YET = {}
 
